@@ -173,10 +173,10 @@ def iconv_scripts(rng, count, decode=True):
         k = 0
         while True:
             last = k >= 7 or rng.random() < 0.35
-            reset = None if rng.random() < 0.97 else rng.choice([9, 22, 12])
+            reset = None if rng.random() < 0.985 else rng.choice([9, 22, 12])
             def call(maxw, final):
                 if final:
-                    rc = rng.choice(['ok'] * 6 + ['eilseq', 'eilseq', 'einval', '12', '9', '75'])
+                    rc = rng.choice(['ok'] * 12 + ['eilseq', 'eilseq', 'eilseq', 'einval', 'einval', '12', '75'])
                 else:
                     rc = 'e2big'
                 if rc == 'ok':
@@ -191,15 +191,6 @@ def iconv_scripts(rng, count, decode=True):
                 if decode and rng.random() < 0.85:
                     w -= w % 4
                 written = bytes(rng.randrange(256) if rng.random() < 0.5 else rng.choice([0, 0x41, 0x20]) for _ in range(w))
-                if decode and w:
-                    # keep the 32-bit units inside the Unicode range so that ctypes can hand them back as str
-                    bs = bytearray(written)
-                    for i in range(0, len(bs) - 3, 4):
-                        bs[i + 2] = rng.choice([0, 0, 1, 0x10]) if bs[i + 2] > 0x10 else bs[i + 2]
-                        bs[i + 3] = 0
-                        if bs[i + 2] == 0 and 0xD8 <= bs[i + 1] <= 0xDF:
-                            bs[i + 1] = 0x4E
-                    written = bytes(bs)
                 return (rc, consumed, written)
             main_final = last and rng.random() < 0.8
             main = call(told, main_final)
@@ -216,6 +207,11 @@ def iconv_scripts(rng, count, decode=True):
                 flush = ('ok', 0, b'')
             else:
                 flush = ('ok', 0, b'')
+            if decode:
+                # the concatenation main+flush is what ctypes hands back as 32-bit units: keep them inside the Unicode range
+                both = sane_units(rng, main[2] + flush[2])
+                main = (main[0], main[1], both[:len(main[2])])
+                flush = (flush[0], flush[1], both[len(main[2]):])
             rounds.append((told, reset, main, flush))
             if last or reset is not None:
                 break
@@ -224,6 +220,16 @@ def iconv_scripts(rng, count, decode=True):
         out.append((n, rounds))
     return out
 
+def sane_units(rng, data):
+    bs = bytearray(data)
+    for i in range(0, len(bs) - 3, 4):
+        if bs[i + 2] > 0x10:
+            bs[i + 2] = rng.choice([0, 0, 1, 0x10])
+        bs[i + 3] = 0
+        if bs[i + 2] == 0 and 0xD8 <= bs[i + 1] <= 0xDF:
+            bs[i + 1] = 0x4E
+    return bytes(bs)
+
 def char_lists(rng, count):
     pool = ['a', 'b', 'é', 'ß', '€', 'ж', 'ა', '中', 'ạ', '\U0001f600', 'ab', '(x)', '(', ')', '()', 'x)', '(y', '((z))', 'q']
     out = []
@@ -231,6 +237,6 @@ def char_lists(rng, count):
         n = rng.choice([1, 1, 2, 3, 4, 5, 6, 7, 12, 40])
         chars = [rng.choice(pool) for _ in range(n)]
         p = rng.choice([0.0, 0.1, 0.5, 1.0])
-        per = ''.join(rng.choice('e' if rng.random() < 0.9 else 'ic') if rng.random() < p else 'o' for _ in chars)
+        per = ''.join(rng.choice('e' if rng.random() < 0.85 else 'uic') if rng.random() < p else 'o' for _ in chars)
         out.append((chars, per))
     return out
